@@ -19,6 +19,8 @@ const VOCAB: &[&str] = &[
     "MICROSECONDS", "INT", "REAL", "TEXT", "BOOLEAN", "TIMESTAMP", "INTERVAL", "int[]", "count", "sum", "min", "max", "avg", "stddev", "variance",
     "percentile", "bool_and", "bool_or", "array_agg", "string_agg", "least", "greatest", "abs", "sqrt", "pow", "length", "upper", "lower",
     "regexp_matches", "array", "array_unique", "now", "make_timestamp", "date_trunc", "x", "y", "t", "t.x", "line", "input", "epoch",
+    // numerals that are not ASCII digits (numeric for Unicode), alone and glued to ASCII digits
+    "8\u{ff10}", "1\u{b2}", "1\u{663}\u{663}\u{663}", "\u{ff11}\u{ff10}", "\u{b2}", "1\u{bd}", "2\u{2167}", "1\u{ff10}\u{ff10}\u{ff10}\u{ff10}", "1.\u{ff15}", "1e\u{ff15}",
     "(", ")", "[", "]", "{", "}", ",", ";", ":", "::", "=>", "=", "!=", "<", "<=", ">", ">=", "+", "-", "*", "/", ".", "^", "!", "--", "\\", "'", "'a'", "''",
     "0", "1", "42", "1.5", "1.2.3", "99999999999999999999", "9223372036854775807", "1e5", "\n", "\t", " ", "\u{a0}", "\u{e5}", "\u{1F600}",
 ];
@@ -223,7 +225,7 @@ impl Monitor for C14 {
     fn generate(&self, rng: &mut Rng, _tier: Tier) -> J {
         match rng.below(12) {
             0 => {
-                let pool: Vec<char> = "aZ09_ \t\n\r'\\\"(){}[],;:.=<>!+-*/^%&|#@~`?$\u{a0}\u{e5}\u{1F600}\u{301}\u{2028}\u{feff}\u{0}".chars().collect();
+                let pool: Vec<char> = "aZ09_ \t\n\r'\\\"(){}[],;:.=<>!+-*/^%&|#@~`?$\u{a0}\u{e5}\u{1F600}\u{301}\u{2028}\u{feff}\u{0}1\u{ff10}\u{b2}\u{663}\u{bd}".chars().collect();
                 let n = rng.below(40);
                 let s: String = (0..n).map(|_| *rng.pick(&pool)).collect();
                 json!({"kind": "unicode", "text": s})
